@@ -126,7 +126,7 @@ def scenario(w):
         if ops:
             kind, arg = ops.pop(0)
         else:
-            kind = ch.wchoice('op', ['call', 'set_up', 'set_level', 'disable', 'enable'], [6, 2, 2, 1, 1])
+            kind = ch.wchoice('op', ['call', 'set_up', 'set_level', 'disable', 'enable', 'set_format'], [12, 4, 4, 2, 2, 1])
             arg = None
         if kind == 'set_up':
             lvl = ch.choice('set_up.level', [None] + LEVELS)
@@ -164,6 +164,16 @@ def scenario(w):
             L.disable()
             model['disabled'] = True
             if not check_level('disable'):
+                return
+        elif kind == 'set_format':
+            fmt = ch.choice('set_format.name', ['brief', 'default', 'verbose', 'no-such-format'])
+            hist.append('set_format(%s)' % fmt)
+            w.log('op', op='set_format', fmt=fmt)
+            try:
+                L.set_format(formatter=fmt)
+            except KeyError:
+                pass                     # documented for unknown names; the level must not move either way
+            if not check_level('set_format'):
                 return
         elif kind == 'enable':
             hist.append('enable()')
@@ -237,4 +247,4 @@ def scenario(w):
     has_override_call = any('verbose=' in h and "verbose='absent'" not in h and 'verbose=None' not in h
                             and h.split('(')[0] in VARIANTS for h in hist)
     w.nontrivial = has_override_call and (any('raised' in h for h in hist) or
-                                          any(h.startswith(('set_up', 'set_level', 'disable', 'enable')) for h in hist))
+                                          any(h.startswith(('set_up', 'set_level', 'disable', 'enable', 'set_format')) for h in hist))
